@@ -83,6 +83,8 @@ func buildFile(res uint16, evs []tev, style int) ([]byte, error) {
 	t1.Add(0, midi.NoteOn(0, 60, 100))
 	t1.Add(480, midi.NoteOff(0, 60))
 	t1.Add(100000, midi.NoteOn(1, 61, 100))
+	t1.Add(960, midi.NoteOff(1, 61))
+	t1.Add(0, midi.NoteOn(1, 62, 100)) // delta 0 right after an event of another type that carries the delta
 	t1.Close(0)
 	s.Add(t0)
 	s.Add(t1)
@@ -211,6 +213,31 @@ func judgeMapStyle(res uint16, evs []tev, style int) {
 	})
 	if c.Panicked {
 		report(c.Sig+":Do", res, evs, -1, "TracksReader.Do panicked: "+c.Value)
+	}
+	// the same iteration restricted to one message type: the events that are
+	// handed out keep their ticks and times
+	wantTicks := []int64{0, 100480, 101440}
+	var gotTicks []int64
+	tr2 := smf.ReadTracksFrom(bytes.NewReader(data)).Only(midi.NoteOnMsg)
+	c = engine.Catch(func() {
+		tr2.Do(func(te smf.TrackEvent) {
+			ctx.Eval()
+			gotTicks = append(gotTicks, te.AbsTicks)
+			ex, segs := exact(res, evs, te.AbsTicks)
+			if ex.Cmp(big.NewRat(horizonUS, 1)) > 0 {
+				return
+			}
+			diff := new(big.Rat).Sub(new(big.Rat).SetInt64(te.AbsMicroSeconds), ex)
+			diff.Abs(diff)
+			if diff.Cmp(big.NewRat(int64(segs), 1)) > 0 {
+				report("do:only-filter:abs-microseconds:"+feature(evs), res, evs, te.AbsTicks, fmt.Sprintf("with Only(NoteOn): event at tick %d gets %d us", te.AbsTicks, te.AbsMicroSeconds))
+			}
+		})
+	})
+	if c.Panicked {
+		report(c.Sig+":Do-only", res, evs, -1, "TracksReader.Only(...).Do panicked: "+c.Value)
+	} else if fmt.Sprint(gotTicks) != fmt.Sprint(wantTicks) {
+		report("do:only-filter:ticks", res, evs, -1, fmt.Sprintf("with Only(NoteOn) the note-ons are handed out at ticks %v, they sit at %v", gotTicks, wantTicks))
 	}
 }
 
